@@ -128,7 +128,10 @@ def load_and_check(spec):
         before = dsgen.sha1_dir(ds)
         m = None
         try:
-            m = load_model(tr['params_path'])
+            # the parameter file given as a string or as a Path
+            import pathlib
+            pp = tr['params_path'] if int(spec.get('fill', 0)) % 2 == 0 else pathlib.Path(tr['params_path'])
+            m = load_model(pp)
             exc = None
         except Exception as e:
             exc = e
